@@ -413,7 +413,9 @@ func analyseConnUnit(v *vocab, u *connUnit, entryLive bool, requires map[*types.
 						}
 					}
 					if flow.SameFunc(cf, v.delConn) && len(e.Args) == 1 {
-						if vv, ok := connVarOf(e.Args[0]); ok {
+						if vv, ok := connVarOf(e.Args[0]); ok && in&live(idx[vv]) != 0 {
+							// only a conn that is still open enters the closing state; unregistering a conn
+							// that user code may already have closed protects nothing
 							in |= closing(idx[vv])
 						}
 					}
